@@ -16,13 +16,15 @@ EXPLANATION = (
     "`have >= 15 && left >= 260` (one iteration can store two literals and a 258-byte match into the unpadded window). WHO: back/fast_back use only buffer_size() and the *_back copy "
     "variants. CONST: inflateBackInit_ builds a window of exactly 1 << windowBits after the [8,15] test. ABORT: inventory from "
     "inflateBack*. Exit codes: BufError on input exhaustion/output failure, StreamEnd in Done, DataError in Bad. Byte equality with "
-    "inflate is not decided.")
+    "inflate is not decided. "
+    "GUARD/fast-bit-budget for inflate_fast_back (refill threshold 28 before the distance decode). WHO/overlap-safe-copy: copy_match_back uses no block copy (copy_within, ptr::copy, copy_from_slice) outside a length <= distance guard - overlapping matches are replicated byte by byte.")
 
 CLAIM = dict(
     text="Static sibling agreement of back()/inflate_fast_back() with inflate's decoder copies over a common rejection "
          "specification (guarding atoms with RFC constants), path-based guards (cut-set over the pruned MIR CFG) on every raw "
          "read/write of back(), who-may-call rules for the padded-window copy routines, and the abort inventory. Necessary "
-         "conditions of memory safety and of agreement with inflate's verdict; output byte equality is not decided.",
+         "conditions of memory safety and of agreement with inflate's verdict; output byte equality is not decided. "
+         "Also: the fast path's margins and bit budget, and the overlap rule of copy_match_back.",
     note="Trusted: rustc MIR; the rejection table (rules/decoders.py), justified-abort table; host target.",
     technique="sibling validation-set comparison + cut-set guard analysis over rustc MIR",
 )
@@ -324,6 +326,7 @@ def run(ck):
     c02.guard_calls(ck, P, only={"fast-entry@back"})
     c02.loop_backedge_guard(ck, P, only={c02.FAST_BACK})
     c02.fast_refill(ck, P, "GUARD/fast-bit-budget", fns=(c02.FAST_BACK,))
+    ck.floor("WHO/overlap-safe-copy", decoders.overlap_safe(ck, P, "WHO/overlap-safe-copy", r"inflate::writer::Writer::copy_match_back$"), 1)
     who(ck, P)
     init_const(ck, P)
     exits(ck, P)
